@@ -70,6 +70,7 @@ pub fn runs_for(prop: Prop, tier: Tier) -> u64 {
 
 pub fn worker_main(prop: Prop, tier: Tier, seed: u64, start: u64, stride: u64, end: u64, distinct_file: Option<String>) -> i32 {
     runner::install_hook();
+    runner::start_watchdog();
     let env = match load_env(prop) {
         Ok(e) => e,
         Err(e) => {
@@ -150,6 +151,7 @@ pub fn worker_main(prop: Prop, tier: Tier, seed: u64, start: u64, stride: u64, e
 
 pub fn exec_main(prop: Prop, tier: Tier) -> i32 {
     runner::install_hook();
+    runner::start_watchdog();
     let env = match load_env(prop) {
         Ok(e) => e,
         Err(e) => {
@@ -390,7 +392,8 @@ fn abort_violation(claim: Prop, p: &Value) -> Violation {
     if p["overrun"].as_bool().unwrap_or(false) {
         return Violation { prop: Prop::C11, class: "search.overrun".into(), features: String::new(), detail: "the search kept polling an expired clock beyond the poll budget".into() };
     }
-    runner::trap_violation(
+    let kind = if p["hang"].as_bool().unwrap_or(false) { "hang" } else { "abort" };
+    runner::trap_violation_kind(
         claim,
         p["file"].as_str().unwrap_or(""),
         p["line"].as_u64().unwrap_or(0) as u32,
@@ -409,7 +412,7 @@ fn abort_violation(claim: Prop, p: &Value) -> Violation {
             "status" => "status",
             _ => "harness",
         },
-        true,
+        kind,
         p["frame"].as_str().unwrap_or(""),
     )
 }
@@ -687,6 +690,7 @@ pub fn check_main(prop: Prop, tier: Tier, seed: u64) -> i32 {
     // (2) exploration
     let mut pending: Vec<(u64, u64)> = (0..workers).map(|w| (w, workers)).collect(); // (start, stride)
     let mut aborts = 0u32;
+    let mut own_aborts = 0u32;
     let mut ends: Vec<Value> = Vec::new();
     let mut distinct: HashSet<u64> = HashSet::new();
     let mut distinct_nt: HashSet<u64> = HashSet::new();
@@ -748,14 +752,22 @@ pub fn check_main(prop: Prop, tier: Tier, seed: u64) -> i32 {
                         };
                         stats.bump("runs.aborted-worker");
                         if v.prop == prop {
-                            // recover the tape by re-running the run in record mode with decisions flushed
-                            let tape = recover_tape(prop, tier, seed, run, &scratch);
+                            own_aborts += 1;
+                            // the hook / watchdog record carries the choices made so far; a process that
+                            // died without such a record (abort inside the plugin) is re-run in record
+                            // mode with every decision flushed to a file
+                            let from_rec: Vec<u32> = w.panic_rec.as_ref().and_then(|p| p["tape"].as_array()).map(|a| a.iter().map(|x| x.as_u64().unwrap_or(0) as u32).collect()).unwrap_or_default();
+                            let tape = if !from_rec.is_empty() { from_rec } else { recover_tape(prop, tier, seed, run, &scratch) };
                             violations.push(Found { run, class: v.class.clone(), features: v.features.clone(), signature: v.signature(), detail: v.detail.clone(), tape, marks: vec![], property: prop.id().to_string() });
                         } else {
                             stats.bump("runs.truncated-by-foreign-violation");
                             stats.bump(&format!("foreign.{}.{}", v.prop.id(), v.class));
                         }
-                        if aborts < 1000 && run + stride < total {
+                        if own_aborts >= 8 {
+                            // aborting and hanging runs are expensive (a process each, a watchdog period
+                            // for a hang); a handful of them is enough to report
+                            stats.bump("batch.stopped-early-after-8-aborting-violations");
+                        } else if aborts < 1000 && run + stride < total {
                             pending.push((run + stride, stride));
                         } else if aborts >= 1000 {
                             stats.bump("batch.truncated-after-1000-aborts");
@@ -814,7 +826,8 @@ pub fn check_main(prop: Prop, tier: Tier, seed: u64) -> i32 {
         let f = group.iter().min_by_key(|f| f.tape.len()).unwrap();
         // 400 candidate executions per signature, but at most ~150 s of minimisation per invocation
         let budget = if t_min.elapsed().as_secs() > 150 { 1 } else { 400 };
-        let (tape, used) = minimise(prop, tier, f, budget);
+        // a hanging run costs the watchdog's whole time limit per execution: report it unminimised
+        let (tape, used) = if sig.contains(".hang") { (f.tape.clone(), 0) } else { minimise(prop, tier, f, budget) };
         let path = write_replay(prop, tier, seed, f, &tape);
         println!("violation {} ({} runs, first run {}; tape {} -> {} choices after {} candidate executions)", sig, group.len(), f.run, f.tape.len(), tape.len(), used);
         println!("  {}", f.detail.lines().next().unwrap_or(""));
@@ -931,6 +944,7 @@ fn recover_tape(prop: Prop, tier: Tier, seed: u64, run: u64, scratch: &Path) -> 
 
 pub fn dump_main(prop: Prop, tier: Tier, seed: u64, run: u64, file: &str) -> i32 {
     runner::install_hook();
+    runner::start_watchdog();
     let env = match load_env(prop) {
         Ok(e) => e,
         Err(_) => return 2,
